@@ -368,3 +368,66 @@ Proof.
   - fold (mapped v). rewrite norm_to4, to4_mapped by assumption. reflexivity.
   - destruct H as [_ H]. apply N.eqb_neq in H. cbn. rewrite H. reflexivity.
 Qed.
+
+(* ---- canonical keys (canonicalSubnet) ----------------------------------------- *)
+Definition masked_key (k : skey) : skey :=
+  match k with
+  | (K4 v, n) => (K4 (N.land v (cidr_mask 32 n)), n)
+  | (K6 v, n) => (K6 (N.land v (cidr_mask 128 n)), n)
+  end.
+
+Lemma canon_key_eq : forall k, wf_skey k -> canon_key k = masked_key k.
+Proof.
+  intros k Hk. destruct (parse_cidr_wf k Hk) as [Hw Hs]. unfold canon_key, skey_of.
+  rewrite snet_key_norm by assumption. destruct (norm_parse_cidr k Hk) as [E1 E2]. rewrite E1, E2.
+  destruct k as [[v|v] n]; reflexivity.
+Qed.
+
+Lemma canon_key_wf : forall k, wf_skey k -> wf_skey (canon_key k).
+Proof.
+  intros k Hk. destruct (parse_cidr_wf k Hk) as [Hw Hs]. unfold canon_key. apply skey_of_wf; assumption.
+Qed.
+
+Lemma parse_canon : forall k, wf_skey k -> parse_cidr (canon_key k) = parse_cidr k.
+Proof.
+  intros k Hk. rewrite canon_key_eq by assumption.
+  destruct k as [[v|v] n]; cbn; rewrite land_idem_mask; reflexivity.
+Qed.
+
+Lemma clear_host_land : forall f v n, n <= fam_bits f -> v < 2 ^ fam_bits f ->
+  clear_host f v n = N.land v (cidr_mask (fam_bits f) n).
+Proof. intros. unfold clear_host, top_bits. rewrite land_cidr_mask by assumption. reflexivity. Qed.
+
+(* the key the code files a subnet under is the identity the property gives it *)
+Lemma id_canon : forall k, wf_skey k -> id_of_skey (canon_key k) = den (id_of_skey k).
+Proof.
+  intros k Hk. rewrite canon_key_eq by assumption.
+  destruct k as [[v|v] n]; destruct Hk as [Hk Hn]; cbn in *.
+  - rewrite (clear_host_land true) by assumption. reflexivity.
+  - destruct Hk. rewrite (clear_host_land false) by assumption. reflexivity.
+Qed.
+
+Lemma denote_ckey : forall s, wf_snet s -> snet_key s <> None ->
+  denote false s = Some (id_of_skey (ckey s)).
+Proof.
+  intros s H Hk. rewrite denote_den, denote_textual by assumption. cbn [option_map].
+  unfold ckey. rewrite id_canon by (apply skey_of_wf; assumption). reflexivity.
+Qed.
+
+Lemma top_bits_clear_host : forall f x n, top_bits f (clear_host f x n) n = top_bits f x n.
+Proof.
+  intros. unfold clear_host, top_bits. rewrite N.shiftr_shiftl_l by lia.
+  rewrite N.sub_diag. apply N.shiftl_0_r.
+Qed.
+
+Lemma rid_matches_den : forall id a, rid_matches (den id) a = rid_matches id a.
+Proof.
+  intros [p|f v|f x n] a; cbn [den]; [reflexivity|reflexivity|].
+  unfold rid_matches. destruct (norm_ip a) as [fa va]. rewrite top_bits_clear_host. reflexivity.
+Qed.
+
+Lemma den_idem : forall id, den (den id) = den id.
+Proof.
+  intros [p|f v|f x n]; cbn [den]; [reflexivity|reflexivity|].
+  unfold clear_host at 1. rewrite top_bits_clear_host. reflexivity.
+Qed.
